@@ -270,6 +270,50 @@ func exercise(roots []ast.Node, ret *pRet) {
 	}
 }
 
+// exerciseMany: the *Many traversal variants over a list of roots (statement lists), incl. early exit.
+func exerciseMany(roots []ast.Node, ret *pRet) {
+	var live []ast.Node
+	for _, r := range roots {
+		if r != nil {
+			live = append(live, r)
+		}
+	}
+	if len(live) < 2 {
+		return
+	}
+	total := 0
+	for _, r := range live {
+		safely(func() { eachNode(r, 0, func(ast.Node, int) { total++ }) })
+	}
+	for _, m := range []struct {
+		name string
+		f    func()
+	}{
+		{"WalkMany", func() { ast.WalkMany(live, &walkCounter{}) }},
+		{"InspectMany", func() { k := 0; ast.InspectMany(live, func(ast.Node) bool { k++; return k%3 != 0 }) }},
+		{"PreorderMany", func() {
+			for range ast.PreorderMany(live) {
+			}
+		}},
+		{"PreorderMany-break", func() {
+			for stop := 1; stop <= total && stop <= 8; stop++ {
+				k := 0
+				for range ast.PreorderMany(live) {
+					k++
+					if k == stop {
+						break
+					}
+				}
+			}
+		}},
+	} {
+		ret.Ncalls++
+		if ok, msg := safely(m.f); !ok && len(ret.Fails) < 20 {
+			ret.Fails = append(ret.Fails, pFail{kindOf(live[0]), m.name, msg})
+		}
+	}
+}
+
 func collectBads(roots []ast.Node, ret *pRet) {
 	for _, root := range roots {
 		if root == nil {
@@ -434,6 +478,7 @@ func parseOne(entry, in string, doExercise bool) (rec pRec) {
 	}
 	if doExercise {
 		exercise(nodes, ret)
+		exerciseMany(nodes, ret)
 	}
 	watchStart.Store(0)
 	return rec
